@@ -164,6 +164,18 @@ pub fn run(tier: Tier, seed: u64) -> i32 {
     let fault = MenuItem { step: crate::driver::Step::Fault(77), deviation: true, label: "fault".into() };
     let maxk = tier.pick(4, 5);
     let mut na = 0;
+    // programs without a single row (nothing but the header; a let; a loop that never runs): the
+    // constructor still sends the defaults with its one output-reading call, next() sends nothing
+    for (what, body) in [("header only", vec![]), ("a let and nothing else", vec![Stmt::Let("k".into(), lit(1))]), ("a loop that never runs", vec![Stmt::Loop("i".into(), lit(0), vec![Stmt::Row(vec![Entry::Lit(1, Radix::Dec), Entry::Lit(1, Radix::Dec), Entry::X])])]), ("a declaration and nothing else", vec![Stmt::Declare("V".into(), bin(BinOp::Add, name("Q"), lit(1)))])] {
+        for ov in [true, false] {
+            let prog = Program { header: vec!["CLK".into(), "A".into(), "Q".into()], body: body.clone() };
+            cases.push(Case::new(&format!("program without rows ({what}) {}", if ov { "Ov" } else { "Fw" }), prog.clone(), sigs_a.clone(), ov, ans_a.clone(), ans_a.clone(), 6));
+            let p0 = Program { header: vec!["CLK".into(), "A".into()], body: if what.starts_with("a loop") { vec![Stmt::Loop("i".into(), lit(0), vec![Stmt::Row(vec![Entry::Lit(1, Radix::Dec), Entry::Lit(1, Radix::Dec)])])] } else if what.starts_with("a decl") { vec![] } else { body.clone() } };
+            let none = vec![MenuItem::ans(vec![])];
+            cases.push(Case::new(&format!("program without rows, signal list without outputs ({what}) {}", if ov { "Ov" } else { "Fw" }), p0, vec![Sig::inp("CLK", 1, 0), Sig::inp("A", 4, 3), Sig::inp("B", 2, 6)], ov, none.clone(), none, 6));
+            na += 2;
+        }
+    }
     for k in 1..=maxk {
         let sp = shape_space(k);
         for idx in 0..sp.count(k) {
